@@ -2,6 +2,7 @@ package sym
 
 import (
 	"fmt"
+	"go/token"
 	"go/types"
 	"strings"
 
@@ -97,8 +98,12 @@ func (ex *Exec) callFunc(g *G, fn *ssa.Function, args []Value, env []Value, done
 		h(ex, g, fn, args, done)
 		return
 	}
-	if fn.Name() == "init" && fn.Synthetic != "" && (fn.Pkg == nil || !strings.HasPrefix(fn.Pkg.Pkg.Path(), ex.E.ModPath) || isGeneratedPBPkg(fn.Pkg)) {
+	if fn.Name() == "init" && fn.Synthetic != "" && (fn.Pkg == nil || !strings.HasPrefix(fn.Pkg.Pkg.Path(), ex.E.ModPath)) {
 		done(nil) // initialisers of dependency packages are not executed
+		return
+	}
+	if strings.HasPrefix(fn.Name(), "init#") && ex.inPBFile(fn.Pos()) {
+		done(nil) // initialisers of protoc-gen-go files only build descriptors, which the model replaces
 		return
 	}
 	if !ex.interpretable(fn) {
@@ -129,6 +134,9 @@ func (ex *Exec) interpretable(fn *ssa.Function) bool {
 	path := p.Pkg.Path()
 	if strings.HasPrefix(path, ex.E.ModPath) {
 		return true
+	}
+	if path == "math/rand" || path == "math/rand/v2" || path == "math/big" {
+		return false
 	}
 	for _, pre := range allowPkgs {
 		if path == pre || strings.HasPrefix(path, pre+"/") {
@@ -434,4 +442,13 @@ func isGeneratedPBPkg(p *ssa.Package) bool {
 		}
 	}
 	return false
+}
+
+// inPBFile reports whether pos lies in a protoc-gen-go generated file (*.pb.go but not the router/wrapper plugins' output).
+func (ex *Exec) inPBFile(pos token.Pos) bool {
+	if !pos.IsValid() {
+		return false
+	}
+	f := ex.E.Prog.Fset.Position(pos).Filename
+	return strings.HasSuffix(f, ".pb.go") && !strings.HasSuffix(f, "_router.pb.go") && !strings.HasSuffix(f, "_wrap.pb.go")
 }
